@@ -575,6 +575,9 @@ O("C01.fill_mly_ymd_all_d", ["C01"], "h_C01d.c", "h_C01_fill_mly_ymd_all_d",
 O("C01.fill_yly_ymd_all_m", ["C01", "C09"], "h_C01d.c", "h_C01_fill_yly_ymd_all_m",
   "fill_yly_ymd_all_m: for every year, N in +-1..31 and weekday mask exactly the N-th (N-th last) day of every month that has one is selected",
   ["fill_yly_ymd_all_m"], unwind=14, **ED)
+O("C01.fill_yly_md_all", ["C01"], "h_C01d.c", "h_C01_fill_yly_md_all",
+  "fill_yly_md_all: for every year, one or two listed months and every weekday mask exactly the days of the listed months on a listed weekday are selected",
+  ["fill_yly_md_all", "inc_wd"], unwind=33, tiers=["thorough"], **ED)
 O("C01.fill_yly_yd_all", ["C01"], "h_C01d.c", "h_C01_fill_yly_yd_all",
   "fill_yly_yd_all: for every year and weekday mask exactly the days of the year on a listed weekday are selected",
   ["fill_yly_yd_all", "inc_md", "inc_wd"], unwind=368, **ED)
